@@ -16,7 +16,7 @@ RULE = ('seeded generator: complex pupil fields 2..20 per side, integers N_r, N_
 ASSUMPTIONS = ['1/alpha is an integer number of samples on each axis (commensurate sampling), as the property states']
 PLAN = {'quick': {'gen': 8}, 'thorough': {'gen': 16, 'tests': 1, 'docs': 1}}
 REQUIRED_BUCKETS = ['N:rect', 'N:square', 'dx:aniso', 'dx:iso', 'os=1', 'os=2', 'os=3', 'N:odd', 'N:even', 'fft', 'dft',
-                    'nested', 'normalize_power']
+                    'nested', 'normalize_power', 'fft:any-period', 'fft:period%os!=0', 'amp:signed']
 REQUIRED_ANCHORS = ['probe:propagate_dft', 'probe:propagate_fft', 'anchor:_fft2', 'anchor:normalize_power',
                     'anchor:dft2']
 REQUIRED_ORACLES = ['dft:full-period', 'fft:full-period', 'nested:monotone', 'intensity>=0', 'normalize_power',
@@ -111,6 +111,8 @@ def workload(ctx, lentil):
         du = (wl * z / (dx[0] * Nr), wl * z / (dx[1] * Nc))
         A = gen.support(rng, shape)
         amp = gen.amplitude(rng, A) * float(rng.uniform(0.1, 10))
+        if (amp < 0).any():
+            ctx.bucket('amp:signed')
         opd = gen.opd(rng, shape, wl, smooth=False)
         seg = rng.random() < 0.3
         kw = {}
@@ -157,6 +159,28 @@ def workload(ctx, lentil):
             ctx.check(bool(I.min() >= 0), 'intensity>=0', 'fft|negative-intensity', 'negative intensity', desc)
         except Exception as e:
             ctx.check(False, 'fft:full-period', f'fft|raises={type(e).__name__}', str(e), desc)
+        # FFT whose period is any integer G >= input size (not necessarily a multiple of the oversampling factor):
+        # the default output is the whole grid and holds the whole input power
+        ctx.bucket('fft:any-period')
+        try:
+            Gr = max(shape) + int(rng.integers(0, 14))
+            Gc = Gr if rng.random() < 0.6 or dx[0] != dx[1] else max(shape) + int(rng.integers(0, 14))
+            if (Gr % os_ or Gc % os_):
+                ctx.bucket('fft:period%os!=0')
+            duG = (wl * z * os_ / (dx[0] * Gr), wl * z * os_ / (dx[1] * Gr))
+            if Gc != Gr:
+                duG = (duG[0], wl * z * os_ / (dx[1] * Gc))
+            out = lentil.propagate_fft(w, duG, oversample=os_)
+            with probe.quiet():
+                I = out.intensity
+            gotS = tuple(int(x) for x in out.shape)
+            ctx.check(gotS == (Gr, Gc), 'fft:full-period', 'fft|grid|any-period', 'default FFT output is not the whole 1/alpha grid',
+                      dict(desc, G=[Gr, Gc], got=list(gotS)))
+            ctx.close('fft:full-period', np.array([I.sum()]), np.array([P]), 1e-10, 'fft|full-period|any-period',
+                      'FFT propagation over its full grid (period not tied to the oversampling factor) does not conserve the input power',
+                      dict(desc, G=[Gr, Gc]), scale=P)
+        except Exception as e:
+            ctx.check(False, 'fft:full-period', f'fft-any-period|raises={type(e).__name__}', str(e), desc)
         # FFT with a scratch buffer that is reused (dirty) across the cases of this history
         try:
             need = (Nr * os_, Nc * os_)
@@ -250,7 +274,7 @@ def workload(ctx, lentil):
             wl, z, dx0 = 6e-7, 5.0, 1e-3
             N = max(shape) + 3
             du = wl * z / (dx0 * N)
-            amp = np.abs(b)
+            amp = np.abs(b) if i % 8 == 0 else np.asarray(b, float)      # sign changes are pi phase steps: same power
             w = lentil.Wavefront(wl) * lentil.Pupil(amplitude=amp, pixelscale=dx0, focal_length=z)
             out = lentil.propagate_dft(w, du, shape=N, oversample=2)
             with probe.quiet():
